@@ -5,7 +5,9 @@
    and aiohttp.client_ws.ClientWebSocketResponse (Side = "client") together with
    _websocket.reader_py.WebSocketDataQueue, _websocket.writer.WebSocketWriter (no
    compression: send_frame never suspends), web_protocol.RequestHandler.connection_lost
-   -> _cancel(exc) and client_proto.ResponseHandler.connection_lost -> feed_eof().
+   and client_proto.ResponseHandler.connection_lost (both end in reader.feed_eof();
+   WebSocketResponse._cancel(exc) is never called in this tree: _current_request is the
+   BaseRequest, whose own _cancel only touches the request payload).
 
    The whole state is ONE record `s` so that every await-free block of the code is a pure
    function  s -> s  and a task step is the composition of blocks up to the next suspension
@@ -31,12 +33,14 @@
                   CLOSING wake-up message of this very close())
      FixCwCancel  server close(): CancelledError while awaiting _close_wait also sets
                   1006 and closes the transport (as every other cancel point does)
+     FixEofCode   receive(): the EofStream handler does not overwrite the close code of a
+                  session that is already closed (it writes 1000 over a 1006)
    Mut* constants are self-test mutants.                                                  *)
 EXTENDS Naturals, Sequences, FiniteSets, TLC
 
 CONSTANTS Side, AutoClose, AutoPing, NRecv, RecvTimeout, CloseTimeout, Heartbeat, MaxTime,
           TaskSet, PeerKinds, MaxPeer, MaxDrop, MaxCancel,
-          FixRearm, FixShortcut, FixCwCancel, MutNoFinally, MutNoWriterClosing
+          FixRearm, FixShortcut, FixCwCancel, FixEofCode, MutNoFinally, MutNoWriterClosing
 
 VARIABLE s
 
@@ -69,7 +73,7 @@ Init ==
         tmo |-> [t \in Tasks |-> "none"], after |-> [t \in Tasks |-> "none"],
         res |-> [t \in Tasks |-> <<>>], nrecv |-> 0, cstart |-> NotIn,
         nPeer |-> 0, peerDone |-> FALSE, nDrop |-> 0, nCancel |-> 0,
-        why |-> {}, gotClose |-> FALSE, sc |-> FALSE, cwc |-> FALSE, bug |-> "none" ]
+        why |-> {}, gotClose |-> FALSE, sc |-> FALSE, cwc |-> FALSE, eo |-> FALSE, bug |-> "none" ]
 
 (* ------------------------------------------------------------ small helpers *)
 Remove(sq, e) == SelectSeq(sq, LAMBDA x : x # e)
@@ -179,8 +183,10 @@ RExc(st0, t, kind) ==
          RRet(Why(IF Side = "client" THEN [st EXCEPT !.code = 1006] ELSE st, "timeout"), t, "Timeout")
     [] kind = "cancelled" ->
          Finish(IF Side = "client" THEN [st EXCEPT !.code = 1006] ELSE st, t, "Cancelled")
-    [] kind = "eof" ->
-         [st EXCEPT !.code = 1000, !.after[t] = "CLOSED", !.pc[t] = CloseEntry]
+    [] kind = "eof" ->      \* except EofStream: self._close_code = OK; await self.close()
+         LET s1 == IF FixEofCode /\ st.closed THEN st
+                   ELSE [st EXCEPT !.code = 1000, !.eo = @ \/ st.closed] IN
+         [s1 EXCEPT !.after[t] = "CLOSED", !.pc[t] = CloseEntry]
     [] kind = "ws" ->
          [st EXCEPT !.code = ErrCode, !.after[t] = "ERROR", !.pc[t] = CloseEntry]
     [] OTHER ->   \* "conn": server `except Exception`; client `except ClientError`
@@ -305,7 +311,7 @@ Wake(st0, t, o) ==
       dropW == IF st.rw = t THEN [st EXCEPT !.rw = "none"] ELSE st    \* except: self._waiter = None
   IN
   CASE st.pc[t] = "spawned" ->
-         IF o = "cancel" THEN Finish(st, t, "Cancelled")
+         IF o = "cancel" THEN [st EXCEPT !.pc[t] = "done", !.cpu = "none"]     \* the coroutine never starts
          ELSE [st EXCEPT !.pc[t] = CASE t = "R" -> "r.top" [] t = "C" -> CloseEntry [] OTHER -> "s.top"]
     [] st.pc[t] = "r.read" ->
          CASE o = "ok" -> [st EXCEPT !.pc[t] = "r.got"]
@@ -372,13 +378,14 @@ IoFrame(st, f) ==
        THEN Why([QSetExc(s1, "ws") EXCEPT !.deaf = TRUE], "proto")
        ELSE Feed(s1, f)
 
-\* connection_lost
+\* connection_lost.  Server: RequestHandler.connection_lost calls _current_request._cancel(exc) - that is
+\* BaseRequest._cancel (request payload), NOT WebSocketResponse._cancel, which nothing calls in this tree -
+\* and then _payload_parser.feed_eof(); the heartbeat is not cancelled.  Client: ResponseHandler.connection_lost
+\* calls _payload_parser.feed_eof() unless a protocol error already detached the parser.
 Lost(st) ==
   IF st.lost THEN st
   ELSE LET s0 == [st EXCEPT !.lost = TRUE, !.tclosing = TRUE] IN
-       IF Side = "server"       \* RequestHandler: _current_request._cancel(exc); _payload_parser.feed_eof()
-       THEN FeedEof(QSetExc(CancelHb([s0 EXCEPT !.closing = TRUE]), "conn"))
-       ELSE IF s0.deaf THEN s0 ELSE FeedEof(s0)       \* ResponseHandler: _payload_parser.feed_eof()
+       IF Side = "client" /\ s0.deaf THEN s0 ELSE FeedEof(s0)
 
 \* Timeout._on_timeout: task.cancel(); state = EXPIRING
 OnTimeout(st, t) == DoCancel([st EXCEPT !.tmo[t] = "fired"], t)
@@ -464,8 +471,9 @@ AllowedCodes ==
   \cup (IF s.why \cap Abnormal # {} THEN {1006} ELSE {})
   \cup (IF "proto" \in s.why THEN {ErrCode} ELSE {})
 CloseCodeRule == (s.closed /\ NobodyInClose) => s.code \in AllowedCodes
-\* as coded: the named exception (server short-cut taken although no peer close frame was consumed)
-CloseCodeRuleButShortcut == (s.closed /\ NobodyInClose /\ ~s.sc /\ ~s.cwc) => s.code \in AllowedCodes
+\* as coded: the named exceptions (server short-cut taken although no peer close frame was consumed;
+\* EofStream handler overwriting the code of a session that is already closed)
+CloseCodeRuleButShortcut == (s.closed /\ NobodyInClose /\ ~s.sc /\ ~s.cwc /\ ~s.eo) => s.code \in AllowedCodes
 
 ReceiveNotStuck ==
   (Idle /\ s.timers = {}) =>
